@@ -19,7 +19,15 @@ def cb_tag(t):
     return t.update(value='<' + t.value + '>')
 
 
+def cb_fail_on_boom(t):
+    # a pure callback that fails on one particular token: the callback-failure fault
+    if t.value.lower() == 'boom':
+        raise ValueError('callback refuses %r' % t.value)
+    return t.update(value=t.value.upper())
+
+
 CALLBACK_SETS = {
+    'cbfail': {'NAME': cb_fail_on_boom, 'NUM': cb_inc},
     'cb1': {'NAME': cb_upper, 'NUM': cb_inc},
     'cb2': {'NAME': cb_tag},
     'cbkw': {'NAME': cb_upper, 'NUM': cb_inc, 'IF': cb_tag},
@@ -244,12 +252,12 @@ _add(Entry('kw', G_KW, {'parser': 'lalr'},
            _prod(LX, {'ph': {}, 'noph': {'maybe_placeholders': False}, 'pp': {'propagate_positions': True}}),
            samples={'NAME': ['foo', 'Bar', 'iff'], 'NUM': ['7', '10']},
            texts=["if a == b then 3 x .", "IF x 12 . y .", "If iff != 3 then IF thenx", "unless not q == 1 . 5 .", "if a = b", "IF if", "12 34 .", "x y ."]))
-_add(Entry('cb', G_KW, {'parser': 'lalr'}, _prod(LX, {'cb1': {}, 'cbkw': {}}), callbacks=True,
-           samples={'NAME': ['foo', 'Bar'], 'NUM': ['7', '10']},
-           texts=["if a == b then 3 x .", "IF x 12 . y .", "unless not q == 1 . 5 .", "7 . 8 abc . IF q", "if a = b"]))
+_add(Entry('cb', G_KW, {'parser': 'lalr'}, _prod(LX, {'cb1': {}, 'cbkw': {}, 'cbfail': {}}), callbacks=True,
+           samples={'NAME': ['foo', 'Bar', 'boom'], 'NUM': ['7', '10']},
+           texts=["if a == b then 3 x .", "IF x 12 . y .", "unless not q == 1 . 5 .", "7 . 8 abc . IF q", "if a = b", "if boom == b then 3 x .", "7 . boom .", "IF boom"]))
 _add(Entry('tr', G_CALC, {'parser': 'lalr'}, _prod(LX, {'calc': {}}), transformer='calc',
-           samples={'NUMBER': ['2', '15'], 'NAME': ['v', 'w']},
-           texts=["1+2*3;", "a - (b + 4) * -c; 7;", "1 + ;", "(1+2;", "x*y*z - 1 - 2;", "1 2;"]))
+           samples={'NUMBER': ['2', '15'], 'NAME': ['v', 'w', 'boom']},
+           texts=["1+2*3;", "a - (b + 4) * -c; 7;", "1 + ;", "(1+2;", "x*y*z - 1 - 2;", "1 2;", "1 + boom * 2; 3;", "boom;"]))
 _add(Entry('calc', G_CALC, {'parser': 'lalr'}, _prod(LX, {'': {}, 'pp': {'propagate_positions': True}, 'kat': {'keep_all_tokens': True}}),
            samples={'NUMBER': ['2', '15'], 'NAME': ['v', 'w']},
            texts=["1+2*3;", "a - (b + 4) * -c; 7;", "1 + ;", "(1+2;", "x*y*z - 1 - 2;", "1 2;"]))
@@ -290,6 +298,30 @@ _add(Entry('eamp', G_AMB_P, {'parser': 'earley'},
 _add(Entry('ecyc', G_ECYC, {'parser': 'earley'}, _prod({'basic': {'lexer': 'basic'}, 'dyn': {'lexer': 'dynamic'}}),
            lalr=False, texts=["p q q r", "", "q s r", "p p", "r", "q q q s q s"]))
 _add(Entry('cyk', G_CYK, {'parser': 'cyk'}, {'': {}}, lalr=False, texts=["a b", "a a b b a b", "b a", "", "a a b"]))
+
+
+class _Entries(dict):
+    """corpus entries by name; names 'gen:<seed>' are generated on demand by sim/gramgen.py (a pure function of the seed)"""
+
+    def __missing__(self, name):
+        if name.startswith('gen:'):
+            from sim import gramgen
+            g = gramgen.gen(random.Random(int(name[4:])))
+            e = Entry(name, g['grammar'], g['options'], {'': {}}, samples=g['samples'], texts=[])
+            if len(self) > 4000:
+                for k in [k for k in self if k.startswith('gen:')][:2000]:
+                    del self[k]
+            self[name] = e
+            return e
+        raise KeyError(name)
+
+
+ENTRIES = _Entries(ENTRIES)
+
+
+def gen_config(rng):
+    """config name of a generated LALR grammar"""
+    return 'gen:%d/' % rng.randrange(1 << 40)
 
 
 def config_names(lalr=None, pred=None):
@@ -430,7 +462,7 @@ _GEN_CACHE = {}
 def gen_text(rng, cfg, inst=None, start=None):
     """a probe text for config: fixed corpus text (40 %) or generated sentence with mutations"""
     e = ENTRIES[cfg.partition('/')[0]]
-    if e.postlex or inst is None or rng.random() < 0.4:
+    if e.texts and (e.postlex or inst is None or rng.random() < 0.4):
         return rng.choice(e.texts)
     g = _GEN_CACHE.get(cfg)
     if g is None:
